@@ -134,6 +134,11 @@ def main(ctx, args):
         for kind in "MS":
             reqs.append("%s %d %d %d %d 1 %s %s" % (kind, i % 2, (i // 2) % 2, (i // 4) % 2, NG, b.hex(), enc(ln)))
             meta.append(({"p": None, "raw": b.hex()}, ln, (i % 2, (i // 2) % 2, (i // 4) % 2)))
+    # raw-byte patterns of repaired defects: a byte that looks like a lead byte before a newline, under case folding
+    for b, ltxt in ((bytes.fromhex("c00a0a"), "a\n"), (bytes.fromhex("c00a0a2e1e99ff0f030e58ff"), "a\n"), (bytes.fromhex("e20a"), "\n\n")):
+        for fl in ((1, 1, 0), (1, 0, 0), (0, 0, 0)):
+            reqs.append("M %d %d %d %d 1 %s %s" % (fl[0], fl[1], fl[2], NG, b.hex(), ltxt.encode().hex()))
+            meta.append(({"p": None, "raw": b.hex()}, [ord(ch) for ch in ltxt], fl))
     for ptxt, ltxt in CORPUS:
         reqs.append("M 0 0 0 %d 1 %s %s" % (NG, ptxt.encode().hex(), ltxt.encode().hex()))
         meta.append(({"p": [ord(ch) for ch in ptxt], "corpus": 1, "eloop": 0 if ptxt in NESTED_CORPUS else 1, "nest": 1 if ptxt in NESTED_CORPUS else 0,
